@@ -14,14 +14,53 @@ FEEDS = {
     "fixed-buffer/src/read_write_chain.rs": ["Ad_chain", "Transfer"], "fixed-buffer/src/read_write_take.rs": ["Ad_take", "Transfer"],
     "fixed-buffer-tokio/src/lib.rs": ["Tk_"],
     "fixed-buffer-tokio/src/async_read_write_chain.rs": ["Ta_achain"], "fixed-buffer-tokio/src/async_read_write_take.rs": ["Ta_atake"],
+    "Cargo.toml": ["Fb_", "Df_", "Es_", "Ad_", "Tk_", "Ta_", "Transfer"],
+    "fixed-buffer/Cargo.toml": ["Fb_", "Df_", "Es_", "Ad_", "Transfer"],
+    "fixed-buffer-tokio/Cargo.toml": ["Tk_", "Ta_"],
 }
 
 
-def current():
+MANIFESTS = {"Cargo.toml": None, "fixed-buffer/Cargo.toml": "fixed-buffer", "fixed-buffer-tokio/Cargo.toml": "fixed-buffer-tokio"}
+IGNORED_KEYS = ("authors", "categories", "description", "keywords", "license", "readme", "repository", "version", "homepage", "documentation", "name")
+
+
+def manifest_env(repo):
+    """what a manifest says about HOW the sources are compiled (edition, features, dependencies other than dev, profiles, build
+    scripts, lib/bin targets, patches), one normalised line per entry; descriptive package metadata and [dev-dependencies] are left out"""
+    out = {}
+    for rel, crate in MANIFESTS.items():
+        p = os.path.join(repo, rel)
+        lines, section = [], ""
+        if os.path.exists(p):
+            for ln in open(p):
+                ln = ln.split("#", 1)[0].strip()        # comments (a '#' inside a string value would be cut too: it then shows as a difference)
+                if not ln:
+                    continue
+                if ln.startswith("["):
+                    section = ln
+                    if not section.startswith("[dev-dependencies"):
+                        lines.append("section " + section)
+                    continue
+                if section.startswith("[dev-dependencies"):
+                    continue
+                key = ln.split("=", 1)[0].strip()
+                if section == "[package]" and key in IGNORED_KEYS:
+                    continue
+                lines.append("%s %s" % (section, " ".join(ln.split())))
+        d = os.path.dirname(p)
+        if crate and os.path.exists(os.path.join(d, "build.rs")):
+            lines.append("build.rs present")
+        out[rel] = lines
+    return out
+
+
+def current(repo=None):
     p = os.path.join(build.BUILD, "tmp", "ast.json")
     if not os.path.exists(p):
         return {}
-    return {"/".join(f["file"].split("/")[-3:]): f["items"].get("env", []) for f in json.load(open(p))}
+    env = {"/".join(f["file"].split("/")[-3:]): f["items"].get("env", []) for f in json.load(open(p))}
+    env.update(manifest_env(repo or build.REPO))
+    return env
 
 
 def diff():
